@@ -2,7 +2,8 @@
 # tools/seedrun_repo.sh [seed-dir ...] : for each seeded change: git -C /repo apply, run the registered checks against /repo,
 # record the verdicts in meta.json, git -C /repo checkout -- . (never leaves /repo modified)
 cd "$(dirname "$0")/.."
-for d in "${@:-seeded/*}"; do
+if [ $# -eq 0 ]; then set -- seeded/*; fi
+for d in "$@"; do
   [ -f "$d/patch.diff" ] || continue
   git -C /repo status --short | grep -q . && { echo "/repo is not clean"; exit 9; }
   git -C /repo apply "$PWD/$d/patch.diff" || { echo "APPLY-FAILED $d"; continue; }
